@@ -1,7 +1,7 @@
 """C01 — no dangling waiter: inductive typestate invariant + drop / pin / lock / panic-site rules."""
 from rl import (entry_methods, loc_endswith, path_cond, trace_summary, where, const_of, fmt_val, fmt_loc, fields_of,
                 NODE_ADTS)
-from common import (scan_calls, scan_aggregates, poll_variant, own_node_roots, contains)
+from common import (scan_calls, scan_aggregates, poll_variant, own_node_roots, contains, mutex_fair_J)
 from specs import STATE_STRUCT_FLOOR, QUEUE_FLOOR, FUTURE_FLOOR, TYPESTATE, LOCK_BYPASS
 from typestate import check_typestate
 from engine import NONE, OPTION
@@ -353,6 +353,7 @@ def run(C, R):
                                '%s:%s' % (fn['file'], fn['line']), {'trace': trace_summary(path)})
         # ---------------- P panic sites
         panic_sites(C, R, F, E, roles, cfg)
+        mutex_fair_invariant(R, F, E, CG, state_paths, cfg)
 
 
 def _contains_only_behind_pointer(t, bearing, depth=0):
@@ -404,6 +405,47 @@ def _moved_only_fresh_or_terminated(E, F, fn, li):
                 else:
                     return False, 'a stored inner future is moved out while it may still be linked'
     return True, ', '.join(sorted(reasons)) or 'constructor value'
+
+
+MUTEX_STATE = 'sync::mutex::MutexState'
+
+
+def mutex_fair_invariant(R, F, E, CG, state_paths, cfg):
+    """P.fair - the fair-mutex assertion `a notified waiter of a fair mutex finds it unlocked` is classified as
+    unreachable; that rests on J: fair & some node Notified => !is_locked.  If a panic path relies on J (own node
+    entered Notified, fair, mutex locked), J must be inductive: (a) a waiter is marked Notified in fair mode only on a
+    path that ends with the mutex known unlocked - is_locked written false, or untouched while the own node entered as
+    the notified one (J at entry); (b) is_locked is set in fair mode only by the notified head or with an empty queue
+    (that half is C04.R1, re-evaluated here)."""
+    if F.adt(MUTEX_STATE) is None:
+        raise CheckerError('anchor=%s missing' % MUTEX_STATE)
+    fair_v = ('init', (('P', 'self'), 'is_fair'))
+    locked_v = ('init', (('P', 'self'), 'is_locked'))
+    rely = []
+    for m in entry_methods(F, CG, MUTEX_STATE):
+        owns = own_node_roots(F, m)
+        for path in state_paths.get(m['path'], []):
+            if path.exit != 'panic':
+                continue
+            own_notified = any(path.facts.get(('discr', ('init', r + ('data', 'state')))) == ('eq', 'Notified')
+                               for r in owns)
+            if own_notified and const_of(E, path.facts, fair_v) == 1 and const_of(E, path.facts, locked_v) == 1 \
+                    and not any(e['k'] == 'qop' and e['op'] == 'remove' for e in path.events):
+                rely.append((m, path))
+    R.extra.setdefault('mutex_fair_invariant_relied_on_by', {})[cfg] = sorted(set(m['path'] for m, _ in rely))
+    if not rely:
+        R.observe('C01.P.fair: no panic path of MutexState relies on "fair & notified => unlocked" [%s]' % cfg)
+        return
+    n, good, bad = mutex_fair_J(E, F, entry_methods(F, CG, MUTEX_STATE), lambda p: state_paths.get(p, []))
+    for m, path, mark, why in good:
+        R.ok('C01.P.fair', '%s|%s|%s' % (m['path'], why, path_cond(E, path)))
+    for m, path, mark, why in bad:
+        R.fail('C01.P.fair', [m['path'], 'notifies-while-possibly-locked', path_cond(E, path)],
+               '%s marks a waiter Notified on a path that can be a fair mutex that is still locked; the '
+               'notified waiter\'s next poll then reaches the assertion in %s (panic on a '
+               'contract-respecting history) [%s]' % (m['path'], rely[0][0]['path'], path_cond(E, path)),
+               where(F, mark), {'trace': trace_summary(path)})
+    R.floor('C01.P.fair notify-paths[%s]' % cfg, n, 2)
 
 
 def panic_sites(C, R, F, E, roles, cfg):
